@@ -1349,6 +1349,9 @@ theorem C11_source_shapes :
       "ok && len(current) == 0"] ∧
     hub_sendto = ["!exists", "!exists", "!exists"] ∧
     hub_bcast_except = ["!exists", "exists", "connID == exceptConnID"] ∧
-    hub_close_session = ["!exists"] := by decide
+    hub_close_session = ["!exists"] ∧
+    -- the per-connection writer goroutine: on a failed socket write it only stops consuming; it never closes the send channel
+    -- (closing is `closeSend`'s, after the connection was unlinked) - the model's writer has no step that closes anything
+    hub_writer = ["{ defer close(done) for env := range ch { if err := send(env); err != nil { return } } }"] := by decide
 
 end TV.C11
